@@ -24,7 +24,7 @@ PROJ_REL = "src-tauri"
 CLASSES = ["cmd_added", "cmd_renamed", "param_type", "param_added", "param_renamed", "param_optional",
            "ret_type", "cmd_rename_all",
            "field_added", "field_type", "field_rename", "rename_identity", "rename_all", "skip_added",
-           "variant_added", "variant_rename", "validator", "validator_changed", "range_bound",
+           "variant_added", "variant_rename", "validator", "validator_changed", "range_bound", "length_min_zero",
            "event_payload", "event_renamed", "event_added", "event_struct",
            "channel_type", "channel_added",
            "mode", "type_mapping", "param_case", "field_case"]
@@ -46,6 +46,7 @@ class State:
         self.transform = set()     # C13 semantics-preserving source transformations: noise decoys reorder moved split
         self.verbose_cfg = False
         self.symlink = False       # a second path to cmds/a.rs through a symbolic link inside the scanned tree
+        self.qualmaps = False      # type_mappings holds several path-qualified keys with one last segment
         self.out_cfg = None        # spelling of the output path in the configuration (None = "./" + out_rel)
         self.proj_cfg = None
 
@@ -70,6 +71,7 @@ def render(st):
     # a rename that spells the identifier itself: it changes the output only because it switches the container's
     # rename_all off for this field (totalItems -> total_items)
     lat_min = "-45" if a["range_bound"] else "-90"      # a negative whole-number bound moved to another one
+    street_min = "min = 0, " if a["length_min_zero"] else ""   # a bound that is the type's natural minimum appears
     report_field = "    pub eta_seconds: Option<u32>,\n" if a["event_struct"] else ""
     identity_attr = '    #[serde(rename = "total_items")]\n' if a["rename_identity"] else ""
     models = """use serde::{Deserialize, Serialize};
@@ -94,6 +96,7 @@ pub enum Status {
 
 #[derive(Serialize, Deserialize)]
 pub struct Address {
+    #[validate(length(%smax = 64))]
     pub street: String,
     #[validate(range(min = %s, max = 90))]
     pub latitude: f64,
@@ -117,7 +120,7 @@ pub struct Unused {
 pub struct JobReport {
     pub percent: u8,
 %s}
-""" % (user_attr, valid_attr, email_attr, secret_attr, extra_field, inactive_attr, variant, lat_min, zip_ty, identity_attr, report_field)
+""" % (user_attr, valid_attr, email_attr, secret_attr, extra_field, inactive_attr, variant, street_min, lat_min, zip_ty, identity_attr, report_field)
     id_ty = "String" if a["param_type"] else "i32"
     ret_ty = "Vec<User>" if a["ret_type"] else "User"
     get_name = "fetch_user" if a["cmd_renamed"] else "get_user"
@@ -199,6 +202,11 @@ pub fn report(app: tauri::AppHandle, id: u32) {
     }
     if a["type_mapping"]:
         cfg["type_mappings"] = {"PathBuf": "string"}
+    if st.qualmaps:
+        # keys that differ only in their path: distinct entries of the table, whatever the tool does with them it has
+        # to do the same way in every process
+        cfg.setdefault("type_mappings", {}).update({"chrono::Duration": "number", "std::time::Duration": "{ secs: number; nanos: number }",
+                                                    "core::time::Duration": "string", "time::Duration": "bigint", "a::Money": "string", "b::Money": "number"})
     T = st.transform
     if "reorder" in T:
         models = reorder_items(models)
@@ -393,6 +401,14 @@ def foreign_files(out_rel, rich=False):
             out_rel + "/.typecache.tmp": "tmp\n",
             out_rel + "/.DS_Store": "x\n",
         })
+        # every reserved base name with every near-miss pattern (a word between the base and the extension, another
+        # extension, a prefix, a suffix): none of these is a reserved name
+        for base in ("types", "commands", "events", "index", "schemas", "models", "bindings"):
+            for pat in ("%s.test.ts", "%s.spec.ts", "%s.mock.ts", "%s.ts.bak", "%s.tsx", "%s.mts", "my%s.ts", "%s2.ts", "%s.d.tsx", "%s.ts~", "%s.js", "%s.d.ts.map"):
+                f.setdefault(out_rel + "/" + pat % base, "// the user's own %s\n" % (pat % base))
+        for nm in ("dependency-graph.svg", "dependency-graph.dot.bak", "dependency-graph.txt.old", "dependency-graphs.txt", "my-dependency-graph.dot",
+                   ".typecache.json", ".typecache2", "x.typecache"):
+            f.setdefault(out_rel + "/" + nm, "the user's own %s\n" % nm)
     return f
 
 
@@ -782,7 +798,7 @@ class Sandbox:
             shutil.rmtree(tmp, ignore_errors=True)
 
 
-def replay_history(root, hist, has_events, viz, case, driver_override=None, nfiles=2, setup=None, rich_foreign=False, has_cmds=True, symlink=False):
+def replay_history(root, hist, has_events, viz, case, driver_override=None, nfiles=2, setup=None, rich_foreign=False, has_cmds=True, symlink=False, qualmaps=False):
     """hist: list of TLC tuples (["edit",c] / ["events",b] / ["commands",b] / ["lose",f] / ["place","probe"] /
     ["run",driver,forced,faultkind,at] / ["end",status,skipped]).  Returns (events, predicted_vs_real list)."""
     # has_events / viz are the FINAL values TLC printed; a toggle entry carries the value AFTER the
@@ -803,6 +819,7 @@ def replay_history(root, hist, has_events, viz, case, driver_override=None, nfil
     st = State(has_events=has_events, viz=viz)
     st.has_cmds = bool(has_cmds)
     st.symlink = bool(symlink)
+    st.qualmaps = bool(qualmaps)
     st.nfiles = nfiles
     if setup:
         setup(st, root)
